@@ -1,3 +1,9 @@
+(* DESIGN-PHASE SPIKE (not part of the checks): log-driven stack machine for
+   EventDispatcher.add_handler / remove_handler / re-entrant dispatch, the
+   trace property "every dispatch calls exactly the registered listeners,
+   once", and the proof accepts -> holds for all scripts, logs and iteration
+   orders.  coqc spike_events_machine.v  (Coq 8.16, stdlib only, ~5 s);
+   Print Assumptions at the end says: Closed under the global context. *)
 From Coq Require Import ZArith List Bool Lia Permutation.
 Import ListNotations.
 Open Scope Z_scope.
@@ -149,6 +155,321 @@ Definition holds_b (p : params) (log : list entry) : bool :=
   | Some {| reg := _; owed := [] |} => true
   | _ => false
   end.
+
+
+(* ================= proof ================= *)
+Definition evl (t : tables) (e : ev) := match alookup e (t_events t) with Some l => l | None => [] end.
+Definition inb (h : hid) (l : list hid) := existsb (Z.eqb h) l.
+Fixpoint frames_owed (stk : list frame) : list (tok * list (hid * meth)) :=
+  match stk with
+  | [] => []
+  | FScript _ :: stk => frames_owed stk
+  | FDispatch t rem :: stk => (t, rem) :: frames_owed stk
+  end.
+
+Definition keys_nodup (p : params) := forall h, NoDup (map fst (events_of p h)).
+
+(* generic alist lemmas *)
+Lemma alookup_aset_eq {A} k (v : A) l : alookup k (aset k v l) = Some v.
+Proof. induction l as [|[k' v'] l IH]; simpl; [rewrite Z.eqb_refl; reflexivity|].
+  destruct (k =? k') eqn:E; simpl; [rewrite Z.eqb_refl; reflexivity | rewrite E; exact IH]. Qed.
+Lemma alookup_aset_neq {A} k k' (v : A) l : k' <> k -> alookup k' (aset k v l) = alookup k' l.
+Proof. intro N. induction l as [|[k2 v2] l IH]; simpl.
+  - destruct (k' =? k) eqn:E; [apply Z.eqb_eq in E; contradiction | reflexivity].
+  - destruct (k =? k2) eqn:E; simpl.
+    + apply Z.eqb_eq in E; subst k2. destruct (k' =? k) eqn:E2; [apply Z.eqb_eq in E2; contradiction | reflexivity].
+    + destruct (k' =? k2); [reflexivity | exact IH]. Qed.
+Lemma alookup_adel_eq {A} k (l : list (Z * A)) : alookup k (adel k l) = None.
+Proof. induction l as [|[k' v'] l IH]; simpl; [reflexivity|]. destruct (k =? k') eqn:E; [exact IH | simpl; rewrite E; exact IH]. Qed.
+Lemma alookup_adel_neq {A} k k' (l : list (Z * A)) : k' <> k -> alookup k' (adel k l) = alookup k' l.
+Proof. intro N. induction l as [|[k2 v2] l IH]; simpl; [reflexivity|]. destruct (k =? k2) eqn:E.
+  - apply Z.eqb_eq in E; subst k2. destruct (k' =? k) eqn:E2; [apply Z.eqb_eq in E2; contradiction | exact IH].
+  - simpl. destruct (k' =? k2); [reflexivity | exact IH]. Qed.
+
+(* the frame side of the invariant *)
+Definition frames_ok (stk : list frame) (n : tok) : Prop :=
+  NoDup (map fst (frames_owed stk)) /\ forall t, In t (map fst (frames_owed stk)) -> t < n.
+
+Record Rel (p : params) (m : mstate) (n : tok) (s : sstate) : Prop := {
+  r_ev : forall e, evl (tabs m) e = listeners p e (reg s);
+  r_hd : forall h, alookup h (t_handlers (tabs m)) = if inb h (reg s) then Some (events_of p h) else None;
+  r_ow : forall t, alookup t (owed s) = alookup t (frames_owed (stack m));
+  r_fr : frames_ok (stack m) n;
+}.
+
+
+(* ---------- table lemmas ---------- *)
+Definition look (acc : list (ev * list (hid * meth))) (e : ev) := match alookup e acc with Some l => l | None => [] end.
+Definition pick (e : ev) (evs : list (ev * meth)) := filter (fun em => fst em =? e) evs.
+
+Lemma look_aset k v acc e : look (aset k v acc) e = if e =? k then v else look acc e.
+Proof. unfold look. destruct (e =? k) eqn:E.
+  - apply Z.eqb_eq in E. subst. rewrite alookup_aset_eq. reflexivity.
+  - apply Z.eqb_neq in E. rewrite alookup_aset_neq by exact E. reflexivity. Qed.
+
+Lemma fold_add_look h evs : forall acc e,
+  look (fold_left (fun acc em => aset (fst em) (set_add (h, snd em) (look acc (fst em))) acc) evs acc) e
+  = fold_left (fun cur em => set_add (h, snd em) cur) (pick e evs) (look acc e).
+Proof.
+  induction evs as [|[k m] evs IH]; intros acc e; simpl; [reflexivity|].
+  rewrite IH. rewrite look_aset. rewrite (Z.eqb_sym e k).
+  destruct (k =? e) eqn:E; simpl; [apply Z.eqb_eq in E; subst; reflexivity | reflexivity].
+Qed.
+
+Lemma pick_small e evs : NoDup (map fst evs) -> pick e evs = [] \/ exists m, pick e evs = [(e, m)].
+Proof.
+  induction evs as [|[k m] evs IH]; simpl; intro N; [left; reflexivity|].
+  inversion N as [|? ? Hni N']; subst. destruct (k =? e) eqn:E.
+  - apply Z.eqb_eq in E. subst k. right. exists m. f_equal.
+    assert (H : forall l, ~ In e (map fst l) -> pick e l = []).
+    { induction l as [|[k2 m2] l IHl]; simpl; intro Hn; [reflexivity|].
+      destruct (k2 =? e) eqn:E2; [apply Z.eqb_eq in E2; subst; exfalso; apply Hn; left; reflexivity|].
+      apply IHl. intro I. apply Hn. right. exact I. }
+    apply H. exact Hni.
+  - apply IH. exact N'.
+Qed.
+
+Lemma mem_app x l1 l2 : mem x (l1 ++ l2) = mem x l1 || mem x l2.
+Proof. induction l1 as [|y l1 IH]; simpl; [reflexivity|]. rewrite IH. apply orb_assoc. Qed.
+
+Definition contrib (p : params) (e : ev) (h : hid) := map (fun em => (h, snd em)) (pick e (events_of p h)).
+Lemma listeners_eq p e regs : listeners p e regs = flat_map (contrib p e) regs.
+Proof. reflexivity. Qed.
+
+Lemma mem_contrib p e h x : mem x (contrib p e h) = true -> fst x = h.
+Proof. unfold contrib. induction (pick e (events_of p h)) as [|em l IH]; simpl; [discriminate|].
+  intro H. apply orb_true_iff in H. destruct H as [H|H]; [|exact (IH H)].
+  unfold pairb in H. apply andb_true_iff in H. destruct H as [H _]. apply Z.eqb_eq in H. exact H. Qed.
+
+Arguments pick : simpl never.
+Arguments contrib : simpl never.
+Lemma mem_listeners_fst p e regs x : mem x (listeners p e regs) = true -> inb (fst x) regs = true.
+Proof. rewrite listeners_eq. induction regs as [|h regs IH]; simpl; [discriminate|]. rewrite mem_app. intro H.
+  apply orb_true_iff in H. destruct H as [H|H].
+  - apply mem_contrib in H. rewrite H. rewrite Z.eqb_refl. reflexivity.
+  - rewrite (IH H). apply orb_true_r. Qed.
+
+Lemma pairb_refl x : pairb x x = true.
+Proof. unfold pairb. rewrite !Z.eqb_refl. reflexivity. Qed.
+
+Lemma mem_listeners_in p e regs h m :
+  inb h regs = true -> pick e (events_of p h) = [(e, m)] -> mem (h, m) (listeners p e regs) = true.
+Proof. rewrite listeners_eq. induction regs as [|h' regs IH]; simpl; [discriminate|]. intros Hin Hp. rewrite mem_app.
+  destruct (h =? h') eqn:E.
+  - apply Z.eqb_eq in E. subst h'. unfold contrib. rewrite Hp. simpl. rewrite pairb_refl. reflexivity.
+  - simpl in Hin. rewrite (IH Hin Hp). apply orb_true_r. Qed.
+
+Lemma inb_hadd h' h regs : inb h' (hadd h regs) = inb h' regs || (h' =? h).
+Proof. unfold hadd. fold (inb h regs). destruct (inb h regs) eqn:E.
+  - destruct (h' =? h) eqn:E2; [apply Z.eqb_eq in E2; subst; rewrite E; reflexivity | rewrite orb_false_r; reflexivity].
+  - unfold inb. rewrite existsb_app. simpl. rewrite orb_false_r. reflexivity. Qed.
+
+Lemma add_handler_ok p : keys_nodup p -> forall T regs h,
+  (forall e, evl T e = listeners p e regs) ->
+  (forall h', alookup h' (t_handlers T) = if inb h' regs then Some (events_of p h') else None) ->
+  (forall e, evl (add_handler p h T) e = listeners p e (hadd h regs)) /\
+  (forall h', alookup h' (t_handlers (add_handler p h T)) = if inb h' (hadd h regs) then Some (events_of p h') else None).
+Proof.
+  intros K T regs h Rev Rhd. split.
+  - intro e. unfold evl, add_handler. simpl.
+    change (look (fold_left (fun acc em => aset (fst em) (set_add (h, snd em) (look acc (fst em))) acc) (events_of p h) (t_events T)) e
+            = listeners p e (hadd h regs)).
+    rewrite fold_add_look. change (look (t_events T) e) with (evl T e). rewrite Rev.
+    unfold hadd. fold (inb h regs). destruct (inb h regs) eqn:Ein.
+    + destruct (pick_small e _ (K h)) as [Hp|[m Hp]]; rewrite Hp; simpl; [reflexivity|].
+      unfold set_add. rewrite (mem_listeners_in p e regs h m Ein Hp). reflexivity.
+    + rewrite (listeners_eq p e (regs ++ [h])), flat_map_app. simpl. rewrite app_nil_r. rewrite <- (listeners_eq p e regs). unfold contrib.
+      destruct (pick_small e _ (K h)) as [Hp|[m Hp]]; rewrite Hp; simpl; [rewrite app_nil_r; reflexivity|].
+      unfold set_add. destruct (mem (h, m) (listeners p e regs)) eqn:Em; [|reflexivity].
+      apply mem_listeners_fst in Em. simpl in Em. rewrite Em in Ein. discriminate.
+  - intro h'. unfold add_handler. simpl. rewrite inb_hadd. destruct (h' =? h) eqn:E.
+    + apply Z.eqb_eq in E. subst h'. rewrite alookup_aset_eq. rewrite orb_true_r. reflexivity.
+    + apply Z.eqb_neq in E. rewrite alookup_aset_neq by exact E. rewrite orb_false_r. apply Rhd.
+Qed.
+
+Lemma fold_rem_look h evs : forall acc e,
+  look (fold_left (fun acc em => match alookup (fst em) acc with
+                                  | Some l => aset (fst em) (remove1 (h, snd em) l) acc
+                                  | None => acc end) evs acc) e
+  = fold_left (fun cur em => remove1 (h, snd em) cur) (pick e evs) (look acc e).
+Proof.
+  induction evs as [|[k m] evs IH]; intros acc e; [reflexivity|].
+  cbn [fold_left fst snd]. rewrite IH. unfold pick. cbn [filter fst]. fold (pick e evs).
+  destruct (alookup k acc) as [l|] eqn:El.
+  - rewrite look_aset. rewrite (Z.eqb_sym e k). destruct (k =? e) eqn:E; cbn [fold_left snd]; [|reflexivity].
+    apply Z.eqb_eq in E. subst k. unfold look. rewrite El. reflexivity.
+  - destruct (k =? e) eqn:E; cbn [fold_left snd]; [|reflexivity].
+    apply Z.eqb_eq in E. subst k. unfold look. rewrite El. reflexivity.
+Qed.
+
+Lemma remove1_app x l1 l2 : remove1 x (l1 ++ l2) = remove1 x l1 ++ remove1 x l2.
+Proof. induction l1 as [|y l1 IH]; simpl; [reflexivity|]. destruct (pairb x y); [exact IH | simpl; f_equal; exact IH]. Qed.
+
+Lemma remove1_other p e h h' m : h <> h' -> remove1 (h, m) (contrib p e h') = contrib p e h'.
+Proof. intro N. unfold contrib. induction (pick e (events_of p h')) as [|em l IH]; simpl; [reflexivity|].
+  unfold pairb at 1. simpl. destruct (h =? h') eqn:E; [apply Z.eqb_eq in E; contradiction|]. simpl. f_equal. exact IH. Qed.
+
+Lemma hdel_cons h h' regs : hdel h (h' :: regs) = if h' =? h then hdel h regs else h' :: hdel h regs.
+Proof. unfold hdel. simpl. destruct (h' =? h); reflexivity. Qed.
+
+Lemma listeners_hdel_single p e h m regs :
+  pick e (events_of p h) = [(e, m)] -> remove1 (h, m) (listeners p e regs) = listeners p e (hdel h regs).
+Proof. intro Hp. rewrite !listeners_eq. induction regs as [|h' regs IH]; [reflexivity|].
+  rewrite hdel_cons. cbn [flat_map]. rewrite remove1_app, IH. destruct (h' =? h) eqn:E.
+  - apply Z.eqb_eq in E. subst h'. unfold contrib at 1. rewrite Hp. simpl. rewrite pairb_refl. reflexivity.
+  - apply Z.eqb_neq in E. rewrite remove1_other by (intro X; apply E; symmetry; exact X). reflexivity. Qed.
+
+Lemma listeners_hdel_none p e h regs :
+  pick e (events_of p h) = [] -> listeners p e regs = listeners p e (hdel h regs).
+Proof. intro Hp. rewrite !listeners_eq. induction regs as [|h' regs IH]; [reflexivity|].
+  rewrite hdel_cons. cbn [flat_map]. rewrite IH. destruct (h' =? h) eqn:E; [|reflexivity].
+  apply Z.eqb_eq in E. subst h'. unfold contrib at 1. rewrite Hp. reflexivity. Qed.
+
+Arguments hdel : simpl never.
+Lemma hdel_absent h regs : inb h regs = false -> hdel h regs = regs.
+Proof. induction regs as [|h' regs IH]; [reflexivity|]. intro H. unfold inb in H. simpl in H. apply orb_false_iff in H. destruct H as [H1 H2].
+  rewrite hdel_cons. rewrite (Z.eqb_sym h' h), H1. f_equal. exact (IH H2). Qed.
+
+Lemma inb_hdel h' h regs : inb h' (hdel h regs) = inb h' regs && negb (h' =? h).
+Proof. induction regs as [|x regs IH]; [reflexivity|]. rewrite hdel_cons. destruct (x =? h) eqn:E.
+  - apply Z.eqb_eq in E. subst x. rewrite IH. unfold inb at 2. simpl. fold (inb h' regs).
+    destruct (h' =? h); simpl; [rewrite andb_false_r; reflexivity | reflexivity].
+  - unfold inb at 1 2. simpl. fold (inb h' (hdel h regs)). fold (inb h' regs). rewrite IH.
+    destruct (h' =? x) eqn:E2; simpl; [|reflexivity].
+    apply Z.eqb_eq in E2. subst x. rewrite E. reflexivity. Qed.
+
+Lemma remove_handler_ok p : keys_nodup p -> forall T regs h,
+  (forall e, evl T e = listeners p e regs) ->
+  (forall h', alookup h' (t_handlers T) = if inb h' regs then Some (events_of p h') else None) ->
+  (forall e, evl (remove_handler h T) e = listeners p e (hdel h regs)) /\
+  (forall h', alookup h' (t_handlers (remove_handler h T)) = if inb h' (hdel h regs) then Some (events_of p h') else None).
+Proof.
+  intros K T regs h Rev Rhd. unfold remove_handler. pose proof (Rhd h) as Rh.
+  destruct (inb h regs) eqn:Ein; rewrite Rh.
+  - split.
+    + intro e. unfold evl. cbn [t_events].
+      change (look (fold_left (fun acc em => match alookup (fst em) acc with
+                                  | Some l => aset (fst em) (remove1 (h, snd em) l) acc
+                                  | None => acc end) (events_of p h) (t_events T)) e = listeners p e (hdel h regs)).
+      rewrite fold_rem_look. change (look (t_events T) e) with (evl T e). rewrite Rev.
+      destruct (pick_small e _ (K h)) as [Hp|[m Hp]]; rewrite Hp; cbn [fold_left snd].
+      * apply listeners_hdel_none. exact Hp.
+      * apply listeners_hdel_single. exact Hp.
+    + intro h'. cbn [t_handlers]. rewrite inb_hdel. destruct (h' =? h) eqn:E.
+      * apply Z.eqb_eq in E. subst h'. rewrite alookup_adel_eq. rewrite andb_false_r. reflexivity.
+      * apply Z.eqb_neq in E. rewrite alookup_adel_neq by exact E. rewrite andb_true_r. apply Rhd.
+  - rewrite (hdel_absent h regs Ein). split; assumption.
+Qed.
+(* token discipline of the harness: dispatch tokens are n, n+1, ... in log order *)
+Definition tok_after (n : tok) (e : entry) : tok := match e with EAct (ADispatch _ _) => n + 1 | _ => n end.
+Definition tok_ok (n : tok) (e : entry) : Prop := match e with EAct (ADispatch _ t) => t = n | _ => True end.
+Fixpoint toks_from (n : tok) (log : list entry) : Prop :=
+  match log with [] => True | e :: log => tok_ok n e /\ toks_from (tok_after n e) log end.
+
+Section Sim.
+Variable p : params.
+
+(* The two table lemmas (the dict/set reasoning about add_handler / remove_handler);
+   in this spike they are section hypotheses, to be proved in coq/theories/Events. *)
+Hypothesis Hkeys : keys_nodup p.
+Let add_handler_ok := add_handler_ok p Hkeys.
+Let remove_handler_ok := remove_handler_ok p Hkeys.
+
+Lemma frames_ok_mono stk n n' : frames_ok stk n -> n <= n' -> frames_ok stk n'.
+Proof. intros [H1 H2] L. split; [exact H1|]. intros t Ht. specialize (H2 t Ht). lia. Qed.
+
+Lemma not_in_lookup_none {A} t (l : list (Z * A)) : ~ In t (map fst l) -> alookup t l = None.
+Proof. induction l as [|[k v] l IH]; simpl; [reflexivity|]. intro N. destruct (t =? k) eqn:E.
+  - apply Z.eqb_eq in E. subst. exfalso. apply N. left. reflexivity.
+  - apply IH. intro I. apply N. right. exact I. Qed.
+
+Lemma step_sim m n s e m' :
+  Rel p m n s -> tok_ok n e -> step p m e = Some m' ->
+  exists s', sstep p s e = Some s' /\ Rel p m' (tok_after n e) s'.
+Proof.
+  intros [Rev Rhd Row Rfr] Htok Hstep.
+  destruct m as [T stk]. simpl in *.
+  destruct e as [a | h mm t | | t]; simpl in Hstep.
+  - (* EAct *)
+    destruct stk as [|[[|a' rest]|] stk]; try discriminate.
+    destruct (action_eqb a a') eqn:Ea; try discriminate.
+    destruct a as [h|h|e t]; inversion Hstep; subst; clear Hstep; simpl.
+    + eexists; split; [reflexivity|]. destruct (add_handler_ok T (reg s) h Rev Rhd) as [A1 A2].
+      constructor; simpl; auto.
+    + eexists; split; [reflexivity|]. destruct (remove_handler_ok T (reg s) h Rev Rhd) as [A1 A2].
+      constructor; simpl; auto.
+    + simpl in Htok. subst t.
+      assert (Hnone : alookup n (owed s) = None).
+      { rewrite Row. apply not_in_lookup_none. intro I. destruct Rfr as [_ Hlt]. specialize (Hlt n I). lia. }
+      rewrite Hnone. eexists; split; [reflexivity|].
+      constructor; simpl; auto.
+      * intro t. destruct (t =? n) eqn:E.
+        -- apply Z.eqb_eq in E. subst t. rewrite alookup_aset_eq. f_equal. symmetry.
+           specialize (Rev e). unfold evl in Rev. exact Rev.
+        -- apply Z.eqb_neq in E. rewrite alookup_aset_neq by exact E. apply Row.
+      * destruct Rfr as [Hnd Hlt]. split; simpl.
+        -- constructor; [|exact Hnd]. intro I. specialize (Hlt n I). lia.
+        -- intros t [Ht|Ht]; [lia | specialize (Hlt t Ht); lia].
+  - (* ECall *)
+    destruct stk as [|[|t' rem] stk]; try discriminate.
+    destruct ((t =? t') && mem (h, mm) rem) eqn:Ec; try discriminate.
+    apply andb_true_iff in Ec. destruct Ec as [Et Em]. apply Z.eqb_eq in Et. subst t'.
+    inversion Hstep; subst; clear Hstep. simpl in *.
+    pose proof (Row t) as Rt. simpl in Rt. rewrite Z.eqb_refl in Rt. rewrite Rt, Em.
+    eexists; split; [reflexivity|]. constructor; simpl; auto.
+    + intro t0. destruct (t0 =? t) eqn:E.
+      * apply Z.eqb_eq in E. subst. rewrite alookup_aset_eq. reflexivity.
+      * pose proof (Row t0) as R0. simpl in R0. rewrite E in R0.
+        apply Z.eqb_neq in E. rewrite alookup_aset_neq by exact E. exact R0.
+  - (* ERet *)
+    destruct stk as [|[[|? ?]|] stk]; try discriminate.
+    destruct stk as [|[|t rem] stk]; try discriminate.
+    inversion Hstep; subst; clear Hstep. simpl in *.
+    eexists; split; [reflexivity|]. constructor; simpl; auto.
+  - (* EEnd *)
+    destruct stk as [|[|t' [|? ?]] stk]; try discriminate.
+    destruct (t =? t') eqn:Et; try discriminate. apply Z.eqb_eq in Et. subst t'.
+    inversion Hstep; subst; clear Hstep. simpl in *.
+    pose proof (Row t) as Rt. simpl in Rt. rewrite Z.eqb_refl in Rt. rewrite Rt.
+    eexists; split; [reflexivity|]. destruct Rfr as [Hnd Hlt]. simpl in Hnd. inversion Hnd as [|? ? Hni Hnd']; subst.
+    constructor; simpl; auto.
+    + intro t0. destruct (t0 =? t) eqn:E.
+      * apply Z.eqb_eq in E. subst. rewrite alookup_adel_eq. symmetry. apply not_in_lookup_none. exact Hni.
+      * pose proof (Row t0) as R0. simpl in R0. rewrite E in R0.
+        apply Z.eqb_neq in E. rewrite alookup_adel_neq by exact E. exact R0.
+    + split; [exact Hnd'|]. intros t0 Ht0. apply Hlt. simpl. right. exact Ht0.
+Qed.
+
+Lemma run_sim log : forall m n s m',
+  Rel p m n s -> toks_from n log -> run p m log = Some m' ->
+  exists n' s', srun p s log = Some s' /\ Rel p m' n' s'.
+Proof.
+  induction log as [|e log IH]; intros m n s m' HR Ht Hrun; simpl in *.
+  - inversion Hrun; subst. exists n, s. split; [reflexivity | exact HR].
+  - destruct (step p m e) as [m1|] eqn:Es; [|discriminate]. destruct Ht as [Ht1 Ht2].
+    destruct (step_sim _ _ _ _ _ HR Ht1 Es) as [s1 [Hs1 HR1]]. rewrite Hs1.
+    exact (IH _ _ _ _ HR1 Ht2 Hrun).
+Qed.
+
+Lemma all_none_nil {A} (l : list (Z * A)) : (forall t, alookup t l = None) -> l = [].
+Proof. destruct l as [|[k v] l]; [reflexivity|]. intro H. specialize (H k). simpl in H. rewrite Z.eqb_refl in H. discriminate. Qed.
+
+Theorem accepts_holds ops log :
+  toks_from 0 log -> accepts p ops log = true -> holds_b p log = true.
+Proof.
+  intros Ht Ha. unfold accepts in Ha. unfold holds_b.
+  destruct (run p {| tabs := {| t_events := []; t_handlers := [] |}; stack := [FScript ops] |} log) as [m'|] eqn:Er; [|discriminate].
+  assert (R0 : Rel p {| tabs := {| t_events := []; t_handlers := [] |}; stack := [FScript ops] |} 0 {| reg := []; owed := [] |}).
+  { constructor; simpl; auto. split; simpl; [constructor | intros ? []]. }
+  destruct (run_sim _ _ _ _ _ R0 Ht Er) as [n' [s' [Hs HR]]]. rewrite Hs.
+  destruct m' as [T' stk']. destruct stk' as [|[[|? ?]|] [|? ?]]; try discriminate.
+  destruct HR as [_ _ Row _]. simpl in Row. destruct s' as [rg ow]. simpl in *.
+  rewrite (all_none_nil ow Row). reflexivity.
+Qed.
+End Sim.
+Check accepts_holds.
+
+Print Assumptions accepts_holds.
 
 (* ---------- a concrete re-entrant example ---------- *)
 Definition P : params := {|
